@@ -56,6 +56,24 @@ Theorem C16_missing_is_minus_one_etcd : forall brokers ops g req,
 Proof. exact offset_fetch_et. Qed.
 Print Assumptions C16_missing_is_minus_one_etcd.
 
+(* an OffsetCommit request (topics x partitions, nullable metadata) is a sequence of
+   per-partition commits, so the theorems above cover whole requests: each (group, topic,
+   partition) gets exactly its own offset and its own metadata ("" for null) *)
+Theorem C16_commit_request_is_commits : forall g req,
+  forallb is_coff_op (offset_commit_ops g req) = true.
+Proof.
+  intros g req. unfold offset_commit_ops. apply forallb_forall. intros o Hin.
+  apply in_flat_map in Hin as ([t ps] & _ & Hin). apply in_map_iff in Hin as ([[p off] m] & <- & _). reflexivity.
+Qed.
+Print Assumptions C16_commit_request_is_commits.
+
+Example C16_request_nonvacuous :
+  let req := [(lit "orders", [(0, 5, Some (lit "checkpoint-a")); (1, 6, None); (2, 7, Some [])]); (lit "events", [(0, 8, None)])] in
+  offset_fetch (im_lookup (fst (im_run (im_new 1) (offset_commit_ops (lit "g1") req)))) (lit "g1")
+    [(lit "orders", [0; 1; 2; 3]); (lit "events", [0])]
+  = [(lit "orders", [(0, 5, lit "checkpoint-a", 0); (1, 6, [], 0); (2, 7, [], 0); (3, -1, [], 0)]); (lit "events", [(0, 8, [], 0)])].
+Proof. vm_compute. reflexivity. Qed.
+
 (* the two fixed defects, on the models of the old code: the "%s:%s:%d" key and the
    forwarded 0 *)
 Example C16_old_code_witnesses :
